@@ -347,79 +347,17 @@ def _taint_use_ok(nm, par, tainted):
 
 # -------------------------------------------------------------------------------------- C09.b / C09.d
 def _commentdoc_shape(repo, rep):
+    """C09.b / C09.d: commentdoc interpreted on small concrete comment texts (one word, several words, leading / trailing / wide
+    blanks, tabs, several lines, blank lines, a trailing newline, whitespace-only text): in every layout of the returned document -
+    before and after normalisation, every blank inside the fill flat or broken - every line starts with "#", shows exactly the words
+    of the text in order, and separate lines of the text stay separate; the empty text is rejected with ValueError"""
     m = repo.module('prettyprinter')
     f = m.funcs.get('commentdoc')
     if f is None:
         raise AnalysisError('commentdoc vanished')
+    from . import docmodel
+    rep.floor('C09.b', docmodel.comments(repo, rep, 'C09.b'), 1)
     n = 0
-    g = Guards(f.node)
-    # every document appended as a comment line starts with '#'
-    line_list = None
-    for s in ast.walk(f.node):
-        if isinstance(s, ast.Call) and call_name(s) == 'intersperse' and len(s.args) == 2:
-            line_list = src(s.args[1])
-            n += 1
-            rep.check(src(s.args[0]) == 'HARDLINE', 'C09.b', 'commentdoc:lines-joined-by-hardline', '%s:%d' % (m.relpath, s.lineno),
-                      'comment lines joined by a hard line break', 'comment lines are joined by %s' % src(s.args[0]), nontrivial=True)
-    if line_list is None:
-        raise AnalysisError('commentdoc no longer joins its lines with intersperse(HARDLINE, ...)')
-    apps = [c for c in ast.walk(f.node) if isinstance(c, ast.Call) and call_name(c) == line_list + '.append']
-    for c in apps:
-        a = c.args[0]
-        n += 1
-        ok = False
-        if isinstance(a, ast.Constant) and isinstance(a.value, str):
-            ok = a.value.startswith('#')
-        elif isinstance(a, ast.Call) and call_name(a) == 'concat' and isinstance(a.args[0], ast.List) and a.args[0].elts:
-            first = a.args[0].elts[0]
-            ok = isinstance(first, ast.Constant) and isinstance(first.value, str) and first.value.startswith('#')
-        rep.check(ok, 'C09.b', 'commentdoc:line-starts-with-hash@%d' % apps.index(c), '%s:%d' % (m.relpath, c.lineno),
-                  'each comment line document begins with "#"',
-                  'a comment line is built as %s: it does not start with "#"' % src(a)[:80], nontrivial=True)
-    # the broken alternative of inter-word whitespace continues the comment on the next line
-    for c in ast.walk(f.node):
-        if isinstance(c, ast.Call) and call_name(c) == 'flat_choice':
-            kw = {k.arg: k.value for k in c.keywords}
-            br = kw.get('when_broken')
-            fl = kw.get('when_flat')
-            n += 1
-            ok = br is not None and src(br).replace(' ', '').replace('\n', '') in (
-                "always_break(concat([HARDLINE,'#']))", "always_break(concat([HARDLINE,'# ']))".replace(' ', ''),
-                "concat([HARDLINE,'#'])")
-            rep.check(ok, 'C09.b', 'commentdoc:wrapped-line-starts-with-hash', '%s:%d' % (m.relpath, c.lineno),
-                      'a wrapped comment continues with HARDLINE "# "',
-                      'the broken alternative between comment words is %s: a wrapped line would not start with "#"'
-                      % (src(br)[:80] if br is not None else None), nontrivial=True)
-            n += 1
-            rep.check(fl is not None and isinstance(fl, ast.Name), 'C09.b', 'commentdoc:flat-whitespace-is-original', '%s:%d' % (m.relpath, c.lineno),
-                      'flat alternative is the original whitespace', 'flat alternative between words is %s' % (src(fl) if fl is not None else None))
-    rets = [r for r in ast.walk(f.node) if isinstance(r, ast.Return)]
-    n += 1
-    ok = len(rets) == 1 and isinstance(rets[0].value, ast.Call) and call_name(rets[0].value) == 'annotate' \
-        and src(rets[0].value.args[0]) == 'Token.COMMENT_SINGLE'
-    rep.check(ok, 'C09.b', 'commentdoc:one-comment-annotation', f.where, 'whole comment under one COMMENT_SINGLE annotation',
-              'commentdoc returns %s' % [src(r.value)[:60] for r in rets], nontrivial=True)
-    # multi-line comments force a break
-    n += 1
-    txt = src(f.node)
-    rep.check('outer = always_break' in txt and 'len(%s) > 1' % line_list in txt, 'C09.b', 'commentdoc:multiline-forces-break', f.where,
-              'a comment of several lines is always broken', 'commentdoc no longer wraps multi-line comments in always_break')
-    rep.floor('C09.b', n, 6)
-    # C09.d: indexing of the word list
-    n = 0
-    from .c07 import _nonempty
-    defs = {}
-    for s in ast.walk(f.node):
-        if isinstance(s, ast.Assign) and len(s.targets) == 1 and isinstance(s.targets[0], ast.Name):
-            defs.setdefault(s.targets[0].id, []).append(s.value)
-    for s in ast.walk(f.node):
-        if isinstance(s, ast.Subscript) and isinstance(s.ctx, ast.Load) and isinstance(s.slice, ast.Constant) \
-                and isinstance(s.slice.value, int) and isinstance(s.value, ast.Name) and s.value.id in defs:
-            n += 1
-            ok, why = _nonempty(s.value.id, defs, g.of(s), s.slice.value)
-            rep.check(ok, 'C09.d', 'commentdoc:index:%s[%d]' % (s.value.id, s.slice.value), '%s:%d' % (m.relpath, s.lineno), why,
-                      'commentdoc indexes %s[%d] although the word list of a blank comment line is empty (%s): comment text '
-                      'makes printing raise IndexError' % (s.value.id, s.slice.value, why), nontrivial=True)
     # the explicit ValueError for empty text: in every interpreted scenario (builders with comment annotations, printers with a
     # trailing comment whose emptiness is unknown) the text handed to commentdoc is known to be non-empty at the call
     calls = list(getattr(rep, '_commentdoc_calls', []))
@@ -444,91 +382,74 @@ def _commentdoc_shape(repo, rep):
                   'comment text known to be non-empty when commentdoc is called',
                   'commentdoc(%s) is reached at line %d on a path where the text may be empty: commentdoc raises ValueError for an empty text '
                   '(the caller must test the comment for truthiness first)' % (pv, ln), nontrivial=True)
-    rep.floor('C09.d', n, 8)
+    rep.floor('C09.d', n, 4)
 
 
 # -------------------------------------------------------------------------------------- C09.f
 def _trailing_comment_used(repo, rep):
-    """a printer that declares the trailing_comment parameter must, on every return path, let
-    it flow into a comment of the returned document or pass it on as trailing_comment="""
+    """a printer that declares the trailing_comment parameter (which suppresses the "does not support trailing comments" warning)
+    must show the comment.  Decided on the interpreted printer (E6): with a non-empty trailing comment, on every path the comment text
+    is inside a comment of the returned document.  Findings are keyed by printer and kind of input (empty container / depth exhausted
+    / with elements), not by source position.  A printer that never reads the parameter at all is one finding of its own."""
+    from engine import docterm as D
+    from engine.interp import ValueV, Sym, SymStr, Undecided
+    from . import shape as S
+    from .c11 import depth_feasible
     n = 0
     printers = {}
+    keys_of = {}
     for r in facts.registry(repo):
         if r.fn is not None and '.extras' not in r.module.name and TC in r.fn.params:
             printers[r.fn.key] = r.fn
+            keys_of.setdefault(r.fn.key, []).append(r.key)
     m = repo.module('prettyprinter')
-    for name in ('pretty_namedtuple', 'pretty_cnamedtuple'):
-        f = m.funcs.get(name)
-        if f is not None and TC in f.params:
+    for f in m.funcs.values():
+        if TC in f.params and f.key not in printers and f.params[:2] == ['value', 'ctx']:
             printers[f.key] = f
+    itp = S.interp(repo, 'printer')
     for f in sorted(printers.values(), key=lambda x: x.key):
-        g = Guards(f.node)
-        defs = {}          # name -> [(lineno, expr)]
-        for s_ in ast.walk(f.node):
-            if isinstance(s_, ast.Assign) and len(s_.targets) == 1 and isinstance(s_.targets[0], ast.Name):
-                defs.setdefault(s_.targets[0].id, []).append((s_.lineno, s_.value))
-            if isinstance(s_, ast.Call) and isinstance(s_.func, ast.Attribute) and s_.func.attr in ('append', 'extend') \
-                    and isinstance(s_.func.value, ast.Name) and s_.args:
-                defs.setdefault(s_.func.value.id, []).append((s_.lineno, s_.args[0]))
-
-        def text_from_comment(expr, at_line, seen=None, depth=0):
-            """expr is (built from) the trailing comment text"""
-            seen = seen if seen is not None else set()
-            for nm in ast.walk(expr):
-                if isinstance(nm, ast.Name):
-                    if nm.id == TC:
-                        return True
-                    if nm.id in seen or depth > 8:
-                        continue
-                    seen.add(nm.id)
-                    for ln, d in defs.get(nm.id, []):
-                        if ln < at_line and isinstance(d, (ast.Name, ast.BinOp, ast.IfExp, ast.JoinedStr)) \
-                                and text_from_comment(d, at_line, seen, depth + 1):
-                            return True
-            return False
-
-        def reaches_comment(expr, at_line, seen=None, depth=0):
-            """the comment text reaches a comment sink (commentdoc(...) / trailing_comment=) inside the
-            documents this expression is built from"""
-            seen = seen if seen is not None else set()
-            for c in ast.walk(expr):
-                if isinstance(c, ast.Call):
-                    if call_name(c) == 'commentdoc' and c.args and text_from_comment(c.args[0], at_line):
-                        return True
-                    if any(k.arg == TC and text_from_comment(k.value, at_line) for k in c.keywords):
-                        return True
-                    callee = m.funcs.get(call_name(c))
-                    if callee is not None:
-                        for i, a in enumerate(c.args):
-                            if i < len(callee.params) and callee.params[i] == TC and text_from_comment(a, at_line):
-                                return True
-            for nm in ast.walk(expr):
-                if isinstance(nm, ast.Name):
-                    if nm.id in seen or depth > 12:
-                        continue
-                    seen.add(nm.id)
-                    for ln, d in defs.get(nm.id, []):
-                        if ln < at_line and reaches_comment(d, at_line, seen, depth + 1):
-                            return True
-            return False
-        # list variables that receive the comment document: ``if not parts`` then means "no comment"
-        comment_lists = {nm for nm, ds in defs.items() if any(reaches_comment(d, 10 ** 9) for _, d in ds)}
-        rets = [r for r in ast.walk(f.node) if isinstance(r, ast.Return) and r.value is not None]
-        for r in rets:
-            fs = g.of(r)
-            # the comment is known absent on this path?
-            if any((not ff.pol) and (ff.text in (TC, 'bool(%s)' % TC) or ff.text in comment_lists) for ff in fs):
-                continue
-            uses = reaches_comment(r.value, r.lineno + 1)
-            kw_pass = False
+        reads = [x for x in ast.walk(f.node) if isinstance(x, ast.Name) and x.id == TC and isinstance(x.ctx, ast.Load)]
+        if not reads:
             n += 1
-            label = '%s:return@%s' % (f.qualname, _ret_ctx(r, g))
-            rep.check(bool(uses) or kw_pass, 'C09.f', label, '%s:%d' % (f.module.relpath, r.lineno),
-                      'trailing comment reaches the returned document',
-                      '%s accepts trailing_comment (which suppresses the "does not support trailing comments" warning) but this '
-                      'return path (%s) drops it: the comment silently disappears from the output'
-                      % (f.name, ', '.join(g.texts(r)[-3:]) or 'unconditional'), nontrivial=True)
-    rep.floor('C09.f', n, 8)
+            rep.fail('C09.f', '%s:trailing-comment-never-used' % f.qualname, f.where,
+                     '%s accepts trailing_comment (which suppresses the "does not support trailing comments" warning) but never looks at it: the '
+                     'comment silently disappears from the output' % f.name)
+            continue
+        outcome = {}        # kind of input -> [ok count, [failing scenario descriptions]]
+        for key in sorted(set(keys_of.get(f.key, []))):
+            base = key.strip("'")
+            if base not in ('list', 'tuple', 'set', 'dict', 'frozenset'):
+                continue
+            for native in (True, False):
+                for k in (0, 1, 2):
+                    try:
+                        v = ValueV('value', S.type_scenario(base, native), [Sym('x%d' % i) for i in range(k)])
+                        res = S.run_printer(repo, itp, f, v, trailing_comment=SymStr('TRAILING-TEXT', nonempty=True))
+                    except (Undecided, AnalysisError) as e:
+                        n += 1
+                        rep.undecided('C09.f', '%s[%s,n=%d]' % (f.qualname, base, k), f.where, str(e))
+                        continue
+                    for pr, t, ph in res:
+                        if pr.raised is not None or t is None:
+                            continue
+                        if isinstance(t, D.Call) and t.via != 'build_fncall' and any('namedtuple' in key_ for key_, val_ in pr.facts if val_):
+                            continue        # handed on to the named-tuple printers (judged on their own)
+                        cut = depth_feasible(pr.facts, 0) and not depth_feasible(pr.facts, 1)
+                        kind = 'depth-exhausted' if cut else 'empty' if k == 0 else 'with-elements'
+                        shown = D.show(t)
+                        ok = 'TRAILING-TEXT' in shown
+                        o = outcome.setdefault(kind, [0, []])
+                        if ok:
+                            o[0] += 1
+                        else:
+                            o[1].append('%s %s, %d element(s) (%s) -> %s' % ('native' if native else 'subclass of', base, k, pr.fact_text()[:60], shown[:60]))
+        for kind, (okc, bad) in sorted(outcome.items()):
+            n += 1
+            rep.check(not bad, 'C09.f', '%s:drops-trailing-comment[%s]' % (f.qualname, kind), f.where,
+                      'the trailing comment is shown (%d interpreted paths)' % okc,
+                      '%s accepts trailing_comment but for %s input the comment is not in the returned document (no comment in the output, no '
+                      'warning): %s' % (f.name, kind, '; '.join(bad[:3])), nontrivial=True)
+    rep.floor('C09.f', n, 6)
 
 
 def _ret_ctx(r, g):
